@@ -20,7 +20,7 @@ FIX_PROPS = {"D1": ["C04", "C06"], "D2": ["C12"], "D3": ["C08"], "D4": ["C02"], 
              "D12": ["C11"], "D13": ["C11"], "D14": ["C19"], "D15": ["C18"], "D17": ["C10"],
              "D18": ["C05"], "D19": ["C08"], "D20": ["C09"], "D21": ["C16"], "D22": ["C03", "C05"],
              "D23": ["C10", "C09"], "D24": ["C11"], "D25": ["C15"], "D26": ["C07"], "D28": ["C05"],
-             "D29": ["C05"], "D30": ["C04"], "D31": ["C05"], "D32": ["C04"], "D33": ["C02"], "D34": ["C12"], "D35": ["C15"], "D36": ["C14"], "D37": ["C11"]}
+             "D29": ["C05"], "D30": ["C04"], "D31": ["C05"], "D32": ["C04"], "D33": ["C02"], "D34": ["C12"], "D35": ["C15"], "D36": ["C14"], "D37": ["C11"], "D38": ["C11"]}
 
 
 def run(job):
